@@ -115,17 +115,48 @@ Proof. exact history_fields. Qed.
 Theorem C07_vars_free : forall t x, In x (vars t) <-> free x (emb t).
 Proof. exact vars_free. Qed.
 
-Theorem C07_cfg_real_faithful : faithful cfg_real.
-Proof. exact cfg_real_faithful. Qed.
+Theorem C07_cfg_fixed_faithful : faithful cfg_fixed.
+Proof. exact cfg_fixed_faithful. Qed.
 
 Theorem C07_cfg_partA_faithful : faithful cfg_partA.
 Proof. exact cfg_partA_faithful. Qed.
 
-Theorem C07_literal_deps_agree : forall (l : literal) k d t x,
-  In (k, d) l -> fbody d = Some t ->
-  exists ds, In (k, ds) (deps_stat false (map (fun kd => (fst kd, emb_field (snd kd))) l) []) /\
-             (In x ds <-> In x (filter (fun y => Lang.mem y (lit_names l)) (c_an cfg_partA t))).
-Proof. exact literal_deps_agree. Qed.
+Theorem C07_literal_deps_agree_stat : forall (l : literal) k d t x,
+  In (k, d) l -> fdyn d = false -> fbody d = Some t ->
+  exists ds, In (k, ds) (deps_stat false (emb_stat l) []) /\
+             (In x ds <-> In x (filter (fun y => Lang.mem y (lit_scope l)) (c_an cfg_partA t))).
+Proof. exact literal_deps_agree_stat. Qed.
+
+Theorem C07_literal_deps_agree_dyn : forall (l : literal) k d t x,
+  In (k, d) l -> fdyn d = true -> fbody d = Some t ->
+  exists ds, In ds (deps_dyn false (emb_stat l) [] (emb_dyn l)) /\
+             (In x ds <-> In x (filter (fun y => Lang.mem y (lit_scope l)) (c_an cfg_partA t))).
+Proof. exact literal_deps_agree_dyn. Qed.
+
+(* the Rust code as it is ([cfg_current]: %record/insert% wraps the thunk of a dynamically named field)
+   runs like the patched one on histories without dynamically named fields ... *)
+Theorem C07_static_history_same : forall b c h,
+  hist_static h -> forall sd, irun_from (set_wrap b c) sd h = irun_from c sd h.
+Proof. exact static_history_same. Qed.
+
+Theorem C07_history_fields_current : forall h i,
+  hist_static h -> lits_ok h ->
+  let (st, slots) := irun cfg_current h in
+  match nth_error slots i, nth_error (srun h) i with
+  | Some (Rid r), Some (Some R) => forall fuel k, ifield fuel st r k = sfield fuel R k
+  | Some BadRef, Some None => True
+  | None, None => True
+  | _, _ => False
+  end.
+Proof. exact history_fields_current. Qed.
+
+(* ... and violates the property on a dynamically named field that depends on an overridden field
+   (the real interpreter gives the same 11) *)
+Theorem C07_dynamic_field_indirection_refuted :
+  exists h i k, (forall l, In (SLit l) h -> NoDup (lit_names l)) /\
+                field_of cfg_current h i k = Ok 11 /\ spec_field_of h i k = Ok 6 /\
+                field_of cfg_fixed h i k = Ok 6.
+Proof. exact dynamic_field_indirection_refuted. Qed.
 
 (* ================================================================= the broken variants *)
 Theorem C07_revert_keeps_cache_panics :
@@ -143,7 +174,7 @@ Proof. exact revert_keeps_cache_overwrite_refuted. Qed.
 
 Theorem C07_inplace_revert_refuted :
   exists h i k, field_of cfg_inplace h i k = Ok 6 /\ spec_field_of h i k = Ok 2
-                /\ field_of cfg_real h i k = Ok 2.
+                /\ field_of cfg_fixed h i k = Ok 2.
 Proof. exact inplace_revert_refuted. Qed.
 
 Theorem C07_deps_incomplete_refuted :
